@@ -22,7 +22,7 @@ from sim.world import Run
 
 ID = "C28"
 LEVEL = "fault_enumeration"
-RUNS = {"quick": 600, "thorough": 40000}
+RUNS = {"quick": 600, "thorough": 240000}
 BUDGET = {"quick": 100.0, "thorough": 3300.0}
 CHUNK = 20
 EXHAUSTIVE = ["every single-bit flip of each sampled SecureWrapper (and TimerNotify) in transit, plus wrong key and wrong session id"]
